@@ -17,12 +17,48 @@ import struct
 import zipfile
 import zlib
 
+from verif.gen.tokens import Tokens
+
 TEMPLATES: dict = {}
+# The templates are written with placeholder tokens; every placeholder is replaced by a token of Tokens(VERIF_SEED) of the same class
+# and length before the file is assembled (ZIP members: before compression; checksummed archive members: at the source).
+PLACEHOLDERS = ["Bbcdfg", "Bcdfgh", "Bdfghj", "Cbcdfg", "Lbcdfg", "Hbcdfg", "Nbcdfg", "Xbcdfg", "Zbcdfg", "Zcdfgh"]
+_TOKMAP: dict = {}
+
+
+def _tokmap():
+    if not _TOKMAP:
+        tk = Tokens()
+        for lit in PLACEHOLDERS:
+            _TOKMAP[lit] = tk.new(lit[0])
+    return _TOKMAP
+
+
+def tok(lit):
+    return _tokmap()[lit]
+
+
+def _sub(x):
+    """single pass (no chained replacement): every placeholder occurrence -> its seeded token"""
+    import re
+    m = _tokmap()
+    if isinstance(x, str):
+        return re.sub("|".join(m), lambda mo: m[mo.group(0)], x)
+    if isinstance(x, (bytes, bytearray)):
+        return re.sub("|".join(m).encode(), lambda mo: m[mo.group(0).decode()].encode(), bytes(x))
+    if isinstance(x, list):
+        return [_sub(y) for y in x]
+    if isinstance(x, dict):
+        return {k: _sub(v) for k, v in x.items()}
+    return x
+
+
+SUB_AFTER = (".html", ".rtf", ".eml", ".mbox", ".mhtml", ".pdf")
 MAGS = {
     "hole": ([10 ** k for k in range(0, 7)], [10 ** k for k in range(0, 10)] + [2 ** 31 - 1, 2 ** 31 + 1, 2 ** 32 - 1]),
     "u16": ([1, 10, 100, 1000, 10 ** 4, 65535],) * 2,
     "u8": ([1, 10, 100, 255],) * 2,
-    "grow": ([1, 10, 100, 1000], [1, 10, 100, 1000, 10 ** 4, 10 ** 5]),
+    "grow": ([1, 10, 100], [1, 10, 100, 1000, 10 ** 4]),
     "exp": ([10 ** k for k in range(1, 7)], [10 ** k for k in range(1, 10)]),
     "one": ([1],) * 2,
 }
@@ -51,6 +87,8 @@ def build(tid, n):
         size = usize(data)
     else:
         name, data, size = out
+    if name.endswith(SUB_AFTER):
+        data = _sub(data)
     return {"name": name, "data": data, "size": int(size)}
 
 
@@ -62,7 +100,7 @@ def mkzip(members, stored=("mimetype",)):
             zi = zipfile.ZipInfo(name, (1980, 1, 1, 0, 0, 0))
             zi.compress_type = zipfile.ZIP_STORED if name in stored else zipfile.ZIP_DEFLATED
             zi.external_attr = 0o100644 << 16
-            z.writestr(zi, data if isinstance(data, bytes) else data.encode("utf-8"))
+            z.writestr(zi, _sub(data if isinstance(data, bytes) else data.encode("utf-8")))
     return buf.getvalue()
 
 
@@ -620,7 +658,7 @@ def _(n):
     return "t.rtf", rtf_doc("Bbcdfg " + "{\\*\\zz " * n + "Xbcdfg" + "}" * n + " Bcdfgh")
 
 
-@template("rtf-nest-table", "grow", "RTF: nested table cells (\\itapN up to n) in one row", mags=([1, 10, 100, 1000], [1, 10, 100, 1000, 10 ** 4]))
+@template("rtf-nest-table", "grow", "RTF: nested table cells (\\itapN up to n) in one row", mags=([1, 10, 100], [1, 10, 100, 1000, 10 ** 4]))
 def _(n):
     inner = "".join(f"\\pard\\intbl\\itap{i} Cbcdfg\\nestcell{{\\*\\nesttableprops\\trowd\\cellx1000\\nestrow}}" for i in range(n + 1, 1, -1))
     return "t.rtf", rtf_doc("\\trowd\\cellx2000\\pard\\intbl " + inner + "\\pard\\intbl Cbcdfg\\cell\\row ")
@@ -661,7 +699,7 @@ MBOX_MSG = ("From a@b.example Thu Jan  1 00:00:00 1970\nFrom: a@b.example\nDate:
 
 
 @template("mbox-many-from", "grow", "mbox: n minimal messages ('From ' line, From/Date/Subject headers, one body line)",
-          mags=([1, 10, 100, 1000], [1, 10, 100, 1000, 10 ** 4, 10 ** 5]))
+          mags=([1, 10, 100, 1000], [1, 10, 100, 1000, 10 ** 4]))
 def _(n):
     return "t.mbox", (MBOX_MSG + "Bbcdfg\n\n").encode() * n
 
@@ -867,7 +905,8 @@ def _(n):
     return "t.pdf", pdf_file(o)
 
 
-@template("pdf-predictor-columns", "hole", "PDF: content stream with /FlateDecode /DecodeParms << /Predictor 12 /Columns n >>", expect="any")
+@template("pdf-predictor-columns", "hole", "PDF: content stream with /FlateDecode /DecodeParms << /Predictor 12 /Columns n >>", expect="any",
+          mags=([10 ** k for k in range(0, 5)], MAGS["hole"][1]))
 def _(n):
     o = pdf_base()
     o[5] = stream(zlib.compress(b"\x00" + TEXT.encode()), f" /Filter /FlateDecode /DecodeParms << /Predictor 12 /Columns {n} >>")
@@ -936,7 +975,7 @@ PPT_DOC = ["doc", {}, [["unit", [["h", 1, [["t", "Hbcdfg"]]], ["p", [["t", "Bbcd
 
 def _xls(summary=None, patch=None):
     from verif.gen import biff8, cfb as C
-    wb = biff8.workbook_stream(XLS_DOC, {})
+    wb = biff8.workbook_stream(_sub(XLS_DOC), {})
     if patch:
         wb = patch(wb)
     streams = {"Workbook": wb}
@@ -947,7 +986,7 @@ def _xls(summary=None, patch=None):
 
 def _ppt(summary=None, patch=None, pictures=None):
     from verif.gen import pptbin, cfb as C
-    streams = dict(pptbin.ppt_streams(PPT_DOC, None, {"no_summary": True, "master_text": False}))
+    streams = dict(pptbin.ppt_streams(_sub(PPT_DOC), None, {"no_summary": True, "master_text": False}))
     if patch:
         streams["PowerPoint Document"] = patch(streams["PowerPoint Document"])
     if summary is not None:
@@ -1020,11 +1059,11 @@ def _dims(rw_mac, col_mac):
     return fn
 
 
-@template("xls-far-row", "u16", "XLS: the NUMBER cell (value 7) sits in row n (0-based, 16-bit field); DIMENSIONS says rows 0..n; label stays in A1")
+@template("xls-far-row", "u16", "XLS: the NUMBER cell (value 7) sits in row n (0-based, 16-bit field), column H; DIMENSIONS says rows 0..n, columns A..H; label stays in A1")
 def _(n):
     def patch(wb):
-        wb = _patch_biff(wb, 0x0203, lambda p: struct.pack_into("<H", p, 0, n))
-        return _patch_biff(wb, 0x0200, _dims(n + 1, 2))
+        wb = _patch_biff(wb, 0x0203, lambda p: struct.pack_into("<HH", p, 0, n, 7))
+        return _patch_biff(wb, 0x0200, _dims(n + 1, 8))
     return _xls(patch=patch)
 
 
@@ -1114,7 +1153,7 @@ def _(n):
 
 
 @template("ppt-nest-container", "grow", "PPT: n empty containers (type 0x0FF0, SlideListWithText) nested inside one another, appended to the document stream",
-          mags=([1, 10, 100, 1000], [1, 10, 100, 1000, 10 ** 4, 10 ** 5]))
+          mags=([1, 10, 100], [1, 10, 100, 1000, 10 ** 4]))
 def _(n):
     def patch(doc):
         return doc + b"".join(struct.pack("<HHI", 0x000F, 0x0FF0, 8 * (n - 1 - i)) for i in range(n))
@@ -1238,19 +1277,19 @@ def _(n):
 @template("7z-num-files", "hole", "7z: FilesInfo declares n files, one member present")
 def _(n):
     from verif.gen import sevenz as SZ
-    return "t.7z", SZ.sevenz([{"name": "a.txt", "data": b"Bbcdfg"}], {"num_files_override": n})
+    return "t.7z", SZ.sevenz([{"name": "a.txt", "data": tok("Bbcdfg").encode()}], {"num_files_override": n})
 
 
 @template("7z-unpack-size-copy", "hole", "7z: folder unpack size declared n (copy coder), 6 bytes present", expect="any")
 def _(n):
     from verif.gen import sevenz as SZ
-    return "t.7z", SZ.sevenz([{"name": "a.txt", "data": b"Bbcdfg"}], {"unpack_size_override": n})
+    return "t.7z", SZ.sevenz([{"name": "a.txt", "data": tok("Bbcdfg").encode()}], {"unpack_size_override": n})
 
 
 @template("7z-unpack-size-lzma", "hole", "7z: folder unpack size declared n (LZMA coder), stream of 6 bytes", expect="any")
 def _(n):
     from verif.gen import sevenz as SZ
-    return "t.7z", SZ.sevenz([{"name": "a.txt", "data": b"Bbcdfg"}], {"unpack_size_override": n, "coder": "lzma"})
+    return "t.7z", SZ.sevenz([{"name": "a.txt", "data": tok("Bbcdfg").encode()}], {"unpack_size_override": n, "coder": "lzma"})
 
 
 def _tar_zeros(n, comp):
@@ -1302,13 +1341,13 @@ def _(n):
 
 @template("zip-declared-size", "hole", "zip: stored member a.txt of 6 bytes whose uncompressed-size field says n (compressed size honest)", expect="any")
 def _(n):
-    d = zip_single("a.txt", b"Bbcdfg", 0, n & 0xFFFFFFFE, zlib.crc32(b"Bbcdfg"))
+    d = zip_single("a.txt", tok("Bbcdfg").encode(), 0, n & 0xFFFFFFFE, zlib.crc32(tok("Bbcdfg").encode()))
     return "t.zip", d, len(d)
 
 
 @template("zip-entries-count", "u16", "zip: end-of-central-directory record declares n entries, one present", expect="any")
 def _(n):
-    d = bytearray(zip_single("a.txt", b"Bbcdfg", 0, 6, zlib.crc32(b"Bbcdfg")))
+    d = bytearray(zip_single("a.txt", tok("Bbcdfg").encode(), 0, 6, zlib.crc32(tok("Bbcdfg").encode())))
     struct.pack_into("<HH", d, len(d) - 22 + 8, n, n)
     return "t.zip", bytes(d)
 
@@ -1317,7 +1356,7 @@ def _(n):
           mags=([10 ** k for k in range(0, 7)], [10 ** k for k in range(0, 10)] + [2 ** 31 - 1, 2 ** 31 + 1, 2 ** 32 - 1, 8 ** 11 - 1]))
 def _(n):
     from verif.gen import tarforge as TF
-    return "t.tar", TF.raw_header(b"a.txt", b"0", n) + b"Bbcdfg".ljust(512, b"\0") + bytes(1024)
+    return "t.tar", TF.raw_header(b"a.txt", b"0", n) + tok("Bbcdfg").encode().ljust(512, b"\0") + bytes(1024)
 
 
 def selftest():
